@@ -1,0 +1,338 @@
+//go:build verif
+
+// Contracts for package funcs (comment-only; read by /verif/plvc).
+
+package funcs
+
+//@ default nonnil *runtime.Task
+//@ default nonnil *ast.CallExpr
+
+// the package logger is never nil
+//@ global l nonnil
+
+//@ func getKeyName
+//@ props C01 C11
+//@ pure
+//@ requires node != nil
+
+//@ func getPoint
+//@ props C01 C10 C11
+//@ pure
+//@ ensures result1 == nil ==> result0 != nil && typeis(in, *input.Point) && result0 == in.(*input.Point)
+
+// every builtin runs under the contract of runtime.FuncCall: it writes only the task, its
+// variables and the point, keeps the scope cursor, and leaves well-tagged return registers
+
+//@ func Grok
+//@ props C01 C12
+//@ implements runtime.FuncCall
+//@ pairs GrokChecking
+
+//@ func GrokChecking
+//@ props C08
+//@ implements runtime.FuncCheck
+
+//@ func AddKey
+//@ props C01 C11
+//@ implements runtime.FuncCall
+//@ pairs AddkeyChecking
+
+//@ func AddkeyChecking
+//@ props C08
+//@ implements runtime.FuncCheck
+
+//@ func AddPattern
+//@ props C01 C12
+//@ implements runtime.FuncCall
+//@ pairs AddPatternChecking
+
+//@ func AddPatternChecking
+//@ props C08
+//@ implements runtime.FuncCheck
+
+//@ func Cast
+//@ props C01 C11
+//@ implements runtime.FuncCall
+//@ pairs CastChecking
+
+//@ func CastChecking
+//@ props C08
+//@ implements runtime.FuncCheck
+
+//@ func DateTime
+//@ props C01 C12
+//@ implements runtime.FuncCall
+//@ pairs DateTimeChecking
+
+//@ func DateTimeChecking
+//@ props C08
+//@ implements runtime.FuncCheck
+
+//@ func DefaultTime
+//@ props C01 C12
+//@ implements runtime.FuncCall
+//@ pairs DefaultTimeChecking
+
+//@ func DefaultTimeChecking
+//@ props C08
+//@ implements runtime.FuncCheck
+
+//@ func Dropkey
+//@ props C01 C11
+//@ implements runtime.FuncCall
+//@ pairs DropkeyChecking
+
+//@ func DropkeyChecking
+//@ props C08
+//@ implements runtime.FuncCheck
+
+//@ func Exit
+//@ props C01 C13
+//@ implements runtime.FuncCall
+//@ pairs ExitChecking
+
+//@ func ExitChecking
+//@ props C08
+//@ implements runtime.FuncCheck
+
+//@ func Getkey
+//@ props C01 C11
+//@ implements runtime.FuncCall
+//@ pairs GetkeyChecking
+
+//@ func GetkeyChecking
+//@ props C08
+//@ implements runtime.FuncCheck
+
+//@ func Len
+//@ props C01 C11 C04
+//@ implements runtime.FuncCall
+//@ pairs LenChecking
+//@ checked len(funcExpr.Param) == 1
+
+//@ func LenChecking
+//@ props C08
+//@ implements runtime.FuncCheck
+//@ ensures result == nil ==> len(funcExpr.Param) == 1
+
+//@ func LoadJSON
+//@ props C01 C11 C04
+//@ implements runtime.FuncCall
+//@ pairs LoadJSONChecking
+//@ checked len(funcExpr.Param) == 1
+
+//@ func LoadJSONChecking
+//@ props C08
+//@ implements runtime.FuncCheck
+//@ ensures result == nil ==> len(funcExpr.Param) == 1
+
+//@ func Rename
+//@ props C01 C11 C10
+//@ implements runtime.FuncCall
+//@ pairs RenameChecking
+
+//@ func RenameChecking
+//@ props C08
+//@ implements runtime.FuncCheck
+
+//@ func SetTag
+//@ props C01 C11 C10
+//@ implements runtime.FuncCall
+//@ pairs SetTagChecking
+
+//@ func SetTagChecking
+//@ props C08
+//@ implements runtime.FuncCheck
+
+//@ func SetMeasurement
+//@ props C01 C11
+//@ implements runtime.FuncCall
+//@ pairs SetMeasurementChecking
+
+//@ func SetMeasurementChecking
+//@ props C08
+//@ implements runtime.FuncCheck
+
+//@ func Strfmt
+//@ props C01 C11
+//@ implements runtime.FuncCall
+//@ pairs StrfmtChecking
+//@ loop 1
+//@ invariant runtime.wfTask(ctx) && ctx.stackCur == old(ctx.stackCur) && oldsame(runtime.Stack.Data) && (old(ctx.procExit) ==> ctx.procExit)
+//@ invariant 2 <= i && fresh(outdata)
+
+//@ func StrfmtChecking
+//@ props C08
+//@ implements runtime.FuncCheck
+
+//@ func Trim
+//@ props C01 C11
+//@ implements runtime.FuncCall
+//@ pairs TrimChecking
+//@ checked len(funcExpr.Param) >= 1
+
+//@ func TrimChecking
+//@ props C08
+//@ implements runtime.FuncCheck
+//@ ensures result == nil ==> len(funcExpr.Param) >= 1 && len(funcExpr.Param) <= 2
+
+//@ func Uppercase
+//@ props C01 C11
+//@ implements runtime.FuncCall
+//@ pairs UppercaseChecking
+
+//@ func UppercaseChecking
+//@ props C08
+//@ implements runtime.FuncCheck
+
+//@ func Use
+//@ props C01 C13 C09
+//@ implements runtime.FuncCall
+//@ pairs UseChecking
+
+//@ func UseChecking
+//@ props C08
+//@ implements runtime.FuncCheck
+
+//@ func URLDecode
+//@ props C01 C11
+//@ implements runtime.FuncCall
+//@ pairs URLDecodeChecking
+
+//@ func URLDecodeChecking
+//@ props C08
+//@ implements runtime.FuncCheck
+
+//@ func Printf
+//@ props C01 C11
+//@ implements runtime.FuncCall
+//@ pairs PrintfChecking
+//@ loop 1
+//@ invariant runtime.wfTask(ctx) && ctx.stackCur == old(ctx.stackCur) && oldsame(runtime.Stack.Data) && (old(ctx.procExit) ==> ctx.procExit)
+//@ invariant 1 <= i && fresh(outdata)
+
+//@ func PrintfChecking
+//@ props C08
+//@ implements runtime.FuncCheck
+
+//@ func Replace
+//@ props C01 C11
+//@ implements runtime.FuncCall
+//@ pairs ReplaceChecking
+
+//@ func ReplaceChecking
+//@ props C08
+//@ implements runtime.FuncCheck
+
+//@ func XML
+//@ props C01 C12
+//@ implements runtime.FuncCall
+//@ pairs XMLChecking
+
+//@ func XMLChecking
+//@ props C08
+//@ implements runtime.FuncCheck
+
+//@ func SQLCover
+//@ props C01 C12
+//@ implements runtime.FuncCall
+//@ pairs SQLCoverChecking
+
+//@ func SQLCoverChecking
+//@ props C08
+//@ implements runtime.FuncCheck
+
+// helpers that reach the point through the task's input
+//@ frame ptFrame = alltype(input.Point), alltype(input.TFMeta), maptype(map[string]string), maptype(map[string]any), maptype(map[string]*input.TFMeta)
+
+//@ func addKey2PtWithVal
+//@ props C01 C10 C11
+//@ requires runtime.wfVal(value, dtype)
+//@ modifies ptFrame
+
+//@ func deletePtKey
+//@ props C01 C10 C11
+//@ modifies ptFrame
+
+//@ func setPointTime
+//@ props C01 C12
+//@ modifies ptFrame
+
+//@ func setMeasurement
+//@ props C01 C11
+//@ modifies ptFrame
+
+//@ func renamePtKey
+//@ props C01 C10 C11
+//@ modifies ptFrame
+
+//@ func getPtKey
+//@ props C01 C10 C11
+//@ pure
+//@ ensures result2 == nil ==> runtime.wfVal(result0, result1)
+
+//@ func pointTime
+//@ props C01 C12
+//@ pure
+
+//@ func doCast
+//@ props C01 C11
+//@ pure
+//@ ensures runtime.wfVal(result0, result1)
+
+//@ func getArgStr
+//@ props C01 C11
+//@ requires runtime.wfTask(ctx) && !ast.isStmtKind(node)
+//@ modifies taskFrame
+//@ ensures ctx.stackCur == old(ctx.stackCur) && oldsame(runtime.Stack.Data) && ctx.Regs.count == 0
+//@ ensures old(ctx.procExit) ==> ctx.procExit
+
+//@ func usePointTime
+//@ props C01 C12
+//@ modifies ptFrame
+
+//@ extern strings.ToLower
+//@ pure
+//@ extern strings.ToUpper
+//@ pure
+//@ extern strings.Trim
+//@ pure
+//@ extern strings.TrimSpace
+//@ pure
+//@ extern strings.NewReader
+//@ pure
+//@ extern time.Now
+//@ pure
+//@ extern time.Unix
+//@ pure
+//@ extern regexp.Compile
+//@ pure
+//@ extern regexp.(*Regexp).ReplaceAllString
+//@ pure
+//@ extern fmt.Printf
+//@ pure
+//@ extern github.com/antchfx/xmlquery.Parse
+//@ pure
+//@ extern github.com/antchfx/xmlquery.Query
+//@ pure
+//@ extern github.com/antchfx/xmlquery.(*Node).InnerText
+//@ pure
+//@ extern github.com/DataDog/datadog-agent/pkg/obfuscate.NewObfuscator
+//@ pure
+//@ extern github.com/DataDog/datadog-agent/pkg/obfuscate.(*Obfuscator).ObfuscateSQLString
+//@ pure
+//@ ensures result1 == nil ==> result0 != nil
+//@ extern time.LoadLocation
+//@ pure
+//@ extern time.ParseInLocation
+//@ pure
+//@ extern github.com/araddon/dateparse.ParseIn
+//@ pure
+//@ extern net/url.QueryUnescape
+//@ pure
+//@ extern github.com/GuanceCloud/grok.(*GrokRegexp).RunWithTypeInfo
+//@ pure
+//@ extern encoding/json.Unmarshal
+//@ modifies nothing
+
+//@ sweep[C01] obfuscatedResource UrldecodeHandle
